@@ -32,9 +32,10 @@
     `neg`) are modelled and proved against exactly these value-level meanings in Model/BitOps.lean,
     Model/Shift.lean, Model/Cast.lean, Model/AddSub.lean (other properties); they are composed here
     at value level.  The Drive handler converts the hex pattern to the value with `U`.
-  * `cast_uint_from_float` contains a defect (finding F3): the `exp == -1` branch returns `1` for
-    floats in (0.5, 1) where `as` truncates to 0.  The model keeps it (`castUintFromFloat`);
-    `castUintFromFloatFixed` is the model after the planned `fix:` commit (`exp < 0 → 0`).
+  * History: up to snapshot a8327ce `cast_uint_from_float` had two branches `exp < -1 → ZERO` and
+    `exp == -1 → (ZERO if the mantissa is a power of two, else ONE)`, which returned 1 for floats in
+    (0.5, 1) where `as` truncates to 0 (finding F3).  Commit e77dd54 replaced them by the single
+    `exp <= -1 → ZERO`; the model mirrors the repaired tree.
 -/
 import Bnum.Model.Basic
 namespace Bnum
@@ -232,7 +233,8 @@ def shiftMantissa (W : Nat) (exp : Int) (mant : Nat) : Nat :=
   else ((mant % 2 ^ W) <<< (e - (mbw - 1))) % 2 ^ W
 
 /-- `cast_uint_from_float::<F, U>(value)`, `W = U::BITS`; result is the value of the `U`.
-    CURRENT TREE: contains the `exp == -1` branch (finding F3). -/
+    (Tree after commit e77dd54 `fix: float to integer casts truncate values in (0.5, 1) to zero`:
+    one branch `exp <= -1 → ZERO`.) -/
 def castUintFromFloat (F : FloatFmt) (W : Nat) (value : Nat) : Nat :=
   if isNan F value then 0 else
   let isInf := isInfinite F value
@@ -240,21 +242,7 @@ def castUintFromFloat (F : FloatFmt) (W : Nat) (value : Nat) : Nat :=
   if sign then 0 else
   if isInf then 2 ^ W - 1 else
   if mant = 0 then 0 else
-  if exp < -1 then 0 else
-  if exp = -1 then
-    (if isPowerOfTwo mant then 0 else 1 % 2 ^ W)
-  else shiftMantissa W exp mant
-
-/-- model after the planned `fix:` commit: the `exp < -1` / `exp == -1` branches are replaced by
-    `if exp < 0 { return U::ZERO }` (truncation) -/
-def castUintFromFloatFixed (F : FloatFmt) (W : Nat) (value : Nat) : Nat :=
-  if isNan F value then 0 else
-  let isInf := isInfinite F value
-  let (sign, exp, mant) := intoNormalisedSignedParts F value
-  if sign then 0 else
-  if isInf then 2 ^ W - 1 else
-  if mant = 0 then 0 else
-  if exp < 0 then 0 else
+  if exp ≤ -1 then 0 else
   shiftMantissa W exp mant
 
 /-! ### call sites (buint/cast.rs, bint/cast.rs), on `W`-bit patterns -/
@@ -277,23 +265,16 @@ def floatFromBInt (F : FloatFmt) (W : Nat) (dbg : Bool) (pat : Nat) : Outcome Na
   | .panic => .panic
   | .ok f => if patIsNegative W pat then .ok (neg F f) else .ok f
 
-/-- `bint_cast_from_float!` given the unsigned cast `cast` (current or fixed); result is the pattern -/
-def bintFromFloatWith (cast : Nat → Nat) (F : FloatFmt) (W : Nat) (x : Nat) : Nat :=
+/-- `CastFrom<f32/f64> for BInt<N>` (`bint_cast_from_float!`); result is the pattern -/
+def bintFromFloat (F : FloatFmt) (W : Nat) (x : Nat) : Nat :=
   if isSignNegative F x then
-    let u := cast (neg F x)
+    let u := buintFromFloat F W (neg F x)
     if u ≥ 2 ^ (W - 1) then 2 ^ (W - 1)          -- `Self::MIN`
     else (2 ^ W - u) % 2 ^ W                      -- `-Self::from_bits(u)`
   else
-    let u := cast x
+    let u := buintFromFloat F W x
     if patIsNegative W u then 2 ^ (W - 1) - 1     -- `Self::MAX`
     else u
-
-/-- `CastFrom<f32/f64> for BInt<N>` -/
-def bintFromFloat (F : FloatFmt) (W : Nat) (x : Nat) : Nat :=
-  bintFromFloatWith (castUintFromFloat F W) F W x
-/-- the same after the planned fix -/
-def bintFromFloatFixed (F : FloatFmt) (W : Nat) (x : Nat) : Nat :=
-  bintFromFloatWith (castUintFromFloatFixed F W) F W x
 
 end Flt
 end Bnum
